@@ -96,6 +96,25 @@ def parse_fdt(xml_text, toi2o, intern):
     return body
 
 
+def add_fdtlens(path):
+    """adds to every reset event the transfer length of each FDT instance seen in the behaviour (input of the
+    mechanism specification, which does not serialise XML)"""
+    rows = [json.loads(l) for l in open(path) if l.strip()]
+    cur = None
+    for e in rows:
+        if e["ev"] == "reset":
+            cur = e
+            e["fdtlens"] = []
+        elif e["ev"] == "read" and cur is not None and e.get("p", {}).get("k") == "fdt":
+            p = e["p"]
+            if p.get("id", -1) >= 0 and isinstance(p.get("fti"), dict) and "L" in p["fti"]:
+                if not any(x[0] == p["id"] for x in cur["fdtlens"]):
+                    cur["fdtlens"].append([p["id"], p["fti"]["L"]])
+    with open(path, "w") as g:
+        for e in rows:
+            g.write(json.dumps(e, separators=(",", ":")) + "\n")
+
+
 def postprocess_sender_trace(src, dst):
     """fdtxml -> fdt events; interning of free-text strings; returns stats"""
     table = {}
